@@ -124,3 +124,35 @@ Proof.
   - intros f Hf. rewrite (inv_units_bal U s I). apply B. exact Hf.
   - intros Hf. specialize (C Hf). unfold finv in F. rewrite <- F. unfold MAX128, MAXU128 in *. lia.
 Qed.
+
+(* ---------- the NFT contract ---------- *)
+Lemma n_update_from_balance s f to id s1 : n_update s (Some f) to id = Ok s1 -> 1 <= balance_of s f.
+Proof.
+  unfold n_update. intros H. inv_bind H. inv_bind Hx. inv_guards.
+  match goal with Hc : checked_sub_u32 _ _ = Some _ |- _ =>
+    unfold checked_sub_u32, in_u32 in Hc; destruct ((0 <=? balance_of s f - 1) && (balance_of s f - 1 <=? MAXU32)) eqn:E; [|discriminate] end.
+  apply andb_prop in E. destruct E as [E _]. apply Z.leb_le in E. lia.
+Qed.
+
+(* whenever Base::update of the NFT succeeded, the transfer_voting_units(.., 1) appended by
+   NonFungibleVotes succeeds (for a mint: unless the u128 vote supply is exhausted) *)
+Theorem nft_hook_never_blocks_final : forall (h : header) (U : list addr) (cs : list (list addr * call)),
+  0 <= h_start h -> NoDup U ->
+  (forall ac, In ac cs -> forall a, In a (call_addrs (snd ac)) -> In a U) ->
+  let s := run h (init h) cs in
+  s_now s + 2 <= MAXU32 ->
+  forall from to id s1,
+    (forall a, from = Some a \/ to = Some a -> In a U) ->
+    n_update s from to id = Ok s1 ->
+    (from = None -> forall y, get_total_supply (s_v s) = Ok y -> y + 1 <= MAXU128) ->
+    exists s2, tvu s1 from to 1 = Ok s2.
+Proof.
+  intros h U cs H0 Hnd Hin s Hroom from to id s1 HU Hu Hmint.
+  pose proof (inv_reachable h U cs H0 Hnd Hin) as I. fold s in I.
+  assert (Hb : forall f, from = Some f -> 1 <= units_of (s_v s) f).
+  { intros f Hf. subst from. rewrite (inv_units_bal U s I). eapply n_update_from_balance; eauto. }
+  apply n_update_moved in Hu. destruct Hu as [N1 [V1 _]].
+  unfold tvu. rewrite N1, V1.
+  destruct (tvu_total U s Hnd I Hroom from to 1 ltac:(lia) HU Hb) as [v' ->]; [|cbn [bind]; eexists; reflexivity].
+  intros Hf. apply (Hmint Hf). unfold get_total_supply. rewrite tl_latest_ok. reflexivity.
+Qed.
